@@ -10,7 +10,6 @@ import SalsaVerif.Model.Core
 import SalsaVerif.Model.Core3
 import SalsaVerif.Model.CoreAcc
 import SalsaVerif.Model.CoreSpec
-import SalsaVerif.Model.CoreP
 
 namespace SalsaVerif.Proofs.GenLogic
 open SalsaVerif.Gen.LogicVerify
